@@ -4,8 +4,10 @@
 # they report, and restores /repo (also when interrupted).
 patch=$(readlink -f "$1"); shift
 cd /verif || exit 2
+# evidence and replay files of runs against changed trees do not belong in /verif
+export CRDSIM_OUT=$(mktemp -d /tmp/crdsim-out-XXXX)
 if [ -n "$(git -C /repo status --porcelain)" ]; then echo "/repo is not clean" >&2; exit 2; fi
-restore() { git -C /repo checkout -q -- . ; git -C /repo clean -fdq; }
+restore() { git -C /repo checkout -q -- . ; git -C /repo clean -fdq; rm -rf "$CRDSIM_OUT"; }
 trap restore EXIT INT TERM
 git -C /repo apply "$patch" || { echo "patch does not apply" >&2; exit 3; }
 for p in "$@"; do
